@@ -139,6 +139,8 @@ pub trait TypeOps {
     fn inner_schema(&self, i: usize, r: usize) -> Out<SchemaOut>;
     /// `store` value i to a file.
     fn store(&self, i: usize, path: &str) -> Out<()>;
+    /// `store` value i scaled by `k` (see `Dom::scale`) to a file.
+    fn store_scaled(&self, i: usize, k: usize, path: &str) -> Out<()>;
     /// Load with loader 0 load_full / 1 load_mem / 2 load_mmap / 3 mmap / 4 `MemCase::encase`
     /// of an ε-copy from memory, then apply the
     /// history `steps` (0 move, 1 box/unbox, 2 swap with a second load, 3 thread round trip,
@@ -348,6 +350,11 @@ where
     fn store(&self, i: usize, path: &str) -> Out<()> {
         let vals = self.vals.borrow();
         let v = &vals[i];
+        out3(guarded(|| v.store(path).map_err(|e| format!("{:?}", e))))
+    }
+    fn store_scaled(&self, i: usize, k: usize, path: &str) -> Out<()> {
+        let vals = self.vals.borrow();
+        let v = vals[i].scale(k);
         out3(guarded(|| v.store(path).map_err(|e| format!("{:?}", e))))
     }
     fn load_history(&self, loader: u8, path: &str, flags: u32, steps: &[u8]) -> Out<Vec<LoadObs>> {
